@@ -24,7 +24,12 @@ def gen_case(rng, nmax=4):
             m["species_extra"][e].pop(rng.choice(["atomic_number", "atomic_mass"]))
             if not m["species_extra"][e]:
                 del m["species_extra"][e]
-    return dict(route=route, model=m, api_variant=None if potable else eamlib.api_variant(rng, m))
+    # the rarely used `comments=` option of writeSetFL: any number of strings - the file always starts with exactly three comment lines (the first three given, blank
+    # lines for the rest), so that line 4 is the element list whatever was handed in (round-7 seed C03_12)
+    comments = None
+    if route == "writeSetFL" and rng.random() < 0.5:
+        comments = ["comment %d of a long preamble" % i_ for i_ in range(rng.choice([0, 1, 2, 3, 4, 4, 6]))]
+    return dict(route=route, model=m, api_variant=None if potable else eamlib.api_variant(rng, m), comments=comments)
 
 
 def run_impl(case):
@@ -33,9 +38,15 @@ def run_impl(case):
         pots, eams = eamlib.build_objects(m, variant=case.get("api_variant"))
         s = io.StringIO()
         if route == "class":
-            SetFL_EAMTabulation(pots, eams, float(m["cut"]), m["nr"], float(m["cutrho"]), m["nrho"]).write(s)
+            eamlib.write_second_time(SetFL_EAMTabulation(pots, eams, float(m["cut"]), m["nr"], float(m["cutrho"]), m["nrho"]), s)
         else:
-            writeSetFL(m["nrho"], float(m["cutrho"] / (m["nrho"] - 1)), m["nr"], float(m["cut"] / (m["nr"] - 1)), eams, pots, s)
+            kw = {} if case.get("comments") is None else {"comments": list(case["comments"])}
+            writeSetFL(m["nrho"], float(m["cutrho"] / (m["nrho"] - 1)), m["nr"], float(m["cut"] / (m["nr"] - 1)), eams, pots, s, **kw)
+            if case.get("comments") is not None:
+                want = (list(case["comments"]) + ["", "", ""])[:3]
+                got = s.getvalue().split("\n")[:3]
+                if got != want:
+                    return "ok", "the first three lines are %r, the comments handed in were %r\n" % (got, case["comments"])
         return "ok", s.getvalue()
     target = "lammps_eam_alloy" if route == "config-lammps_eam_alloy" else "setfl"
     cfg = eamlib.cfg_text(m, target)
